@@ -156,6 +156,11 @@ def run(rep, tier):
             ph_area = ap.area_overlap(c['data'], mask=fin_mask, method=c['method'], subpixels=c['sub'])
         img_s = ms.to_image((c['ny'], c['nx']))
         anypos = img_s is not None and bool(((img_s > 0) & ~fin_mask).any())
+        if img_s is not None and bool(((img_s < 0) | ~np.isfinite(img_s)).any()):
+            # aperture weights outside [0, 1] are a C01 matter (known finding F20: degenerate ellipse / pixel-grid contact), not a
+            # statement about the statistics of the aperture pixel set
+            rep.count('skipped:weights-outside-[0,1] (C01, F20)')
+            continue
         if not anypos:
             # no overlap, or no unmasked pixel with positive weight: NaN, never a number
             for nm in ['sum', 'sum_aper_area'] + (['sum_err'] if c['err'] is not None else []):
